@@ -27,10 +27,10 @@ fn shape_name(i: usize) -> &'static str {
     [
         "chan_existing", "chan_missing", "chan_list_rep", "nick_own", "nick_other", "nick_missing", "nick_list_rep", "empty",
         "long", "multibyte", "mask_wild", "mask_long_literal", "number", "number_extreme", "modestr", "modestr_switch",
-        "text", "server", "key", "prefixed_chan", "garbage", "qmask_multibyte", "cap_word", "list_huge",
+        "text", "server", "key", "prefixed_chan", "garbage", "qmask_multibyte", "cap_word", "list_huge", "umodestr",
     ][i]
 }
-const N_SHAPES: usize = 24;
+const N_SHAPES: usize = 25;
 
 fn gen_param(r: &mut Rng, shape: usize, own: &str) -> String {
     let chans = ["#mix", "#by", "#solo", "&loc"];
@@ -86,6 +86,7 @@ fn gen_param(r: &mut Rng, shape: usize, own: &str) -> String {
         }
         21 => ["?*!*@*", "*é*", "?", "??", "ż*", "*ć", "?ółć!*@*", "*!*é@*", "é?*"][r.below(9)].to_string(),
         22 => ["LS", "LIST", "REQ", "END", "302", "301", "multi-prefix", "multi-prefix bogus", "ls"][r.below(9)].to_string(),
+        24 => ["+O", "+o", "-o", "-O", "+oO", "-oO", "+Oo", "+i", "-i", "+w", "-w", "+r", "-r", "+iwO", "-w+w", "+ii"][r.below(16)].to_string(),
         _ => {
             // a comma list of hundreds of short names: one command, tens of kilobytes of replies
             let item = ["x", "#q", "by1", "fz", "#mix", "*"][r.below(6)];
@@ -120,6 +121,8 @@ fn gen_line(r: &mut Rng, own: &str) -> (Vec<u8>, String) {
                 ("KICK", 1) => [3, 4, 5, 6][r.below(4)],
                 ("INVITE", 0) | ("KILL", 0) | ("WHOWAS", 0) => [3, 4, 5][r.below(3)],
                 ("MODE", 0) => [0, 0, 1, 3, 4, 5][r.below(6)],
+                // (a nickname as MODE target is followed by user-mode letters more often than not)
+                ("MODE", 1) if shapes.first().map_or(false, |s| [3usize, 4, 5].contains(s)) => [24, 24, 14, 15][r.below(4)],
                 ("MODE", 1) => [14, 15][r.below(2)],
                 ("MODE", _) => [3, 4, 5, 10, 11, 21, 12, 13, 18, 9][r.below(10)],
                 ("PRIVMSG", 0) | ("NOTICE", 0) => [0, 1, 2, 3, 4, 5, 6, 19][r.below(8)],
@@ -485,6 +488,22 @@ impl Check for C05 {
         say(&mut a, B1, &format!("PRIVMSG by2 :probe-{}", probe_no));
         say(&mut a, B2, &format!("PRIVMSG #by :chanprobe-{}", probe_no));
         say(&mut a, B2, &format!("PING pr-{}", probe_no));
+        // finally the fuzzing session ends (whatever state its lines left behind is torn down) and the others go on
+        match r.below(3) {
+            0 => say(&mut a, FZ, "QUIT :done"),
+            1 => {
+                a.push(Action::CloseWrite { c: FZ });
+                a.push(Action::Settle);
+            }
+            _ => {
+                a.push(Action::Reset { c: FZ });
+                a.push(Action::Settle);
+            }
+        }
+        probe_no += 1;
+        say(&mut a, B1, &format!("PRIVMSG by2 :probe-{}", probe_no));
+        say(&mut a, B2, &format!("PRIVMSG #by :chanprobe-{}", probe_no));
+        say(&mut a, B2, &format!("PING pr-{}", probe_no));
         let mut params = HashMap::new();
         params.insert("state".to_string(), STATE_NAMES[state].to_string());
         params.insert("labels".to_string(), labels.join(";"));
@@ -776,6 +795,11 @@ async fn exec_inner(t: Trace) -> Outcome {
                 if viol.is_some() || ended_ok {
                     break;
                 }
+            }
+            Action::CloseWrite { c } | Action::Reset { c } if *c == FZ => {
+                // the fuzzing client ends its session itself
+                fz_excuse_seen = true;
+                w.apply(a).await;
             }
             other => {
                 w.apply(other).await;
